@@ -89,8 +89,12 @@ static _Atomic int      fwd_lazy;
 static _Atomic long     fwd_count, fwd_hdr_ok;
 
 // violation key = C09/<clause>/<mode or situation>
+// a 'not-offered' verdict costs a 30 s wait: after the first one this worker
+// stops taking new cases (the verdict is in; the rest would only be slow)
+static int g_abort;
 #define VIOL(clause, disc, ...) \
 	do { \
+		if (!strcmp(clause, "not-offered")) g_abort = 1; \
 		char k_[128]; \
 		snprintf(k_, sizeof(k_), "C09/%s/%s", clause, disc); \
 		vf_violation(k_, __VA_ARGS__); \
@@ -1326,6 +1330,7 @@ main(int argc, char **argv)
 	for (long idx = 0; idx < vf_cases; idx++) {
 		vf_rng r;
 		if (!vf_want_case(idx)) continue;
+		if (g_abort) break;
 		vf_rng_seed(&r, vf_seed, (uint64_t) idx);
 		vf_watchdog(!strcmp(vf_mode, "noblock") ? 90 : 180);
 		if (!strcmp(vf_mode, "raw")) {
